@@ -6,6 +6,7 @@ import NadaVerif.Generated.FoldOps
 import NadaVerif.Spec.C02
 import NadaVerif.Spec.C06
 import NadaVerif.Spec.C03
+import NadaVerif.Spec.C07
 import NadaVerif.Driver.ProgJson
 
 namespace NadaVerif.Driver
@@ -68,6 +69,9 @@ def handle (j : Json) : Json :=
       ("eqModel", failingRows fun r => C02.eraseOut r.2.2 = some (C02.modelOut r.1 r.2.1)),
       ("foldedIffLiteral", failingRows C06.foldedIffLiteral)]
   | .ok "c03cells" => Json.mkObj [("noDeclass", failingRows C03.noDeclass)]
+  | .ok "c07routes" => Json.arr ((C07.routes classTable).map fun (c, r, o, out) =>
+      Json.arr #[Json.str c, Json.str r, Json.str o,
+        Json.str (match out with | .raises => "raises" | .nada => "nada" | .silent => "silent")]).toArray
   | .ok "fold" => handleFold j
   | .ok "prog" => handleProg j
   | .ok k => Json.mkObj [("error", Json.str ("unknown request " ++ k))]
